@@ -44,8 +44,14 @@ extern "C" {
 #endif
 
 /* tunable knobs */
+#if defined(QLIBC_VERIF) && defined(QLIBC_VERIF_HASHARR_NAMESIZE) && defined(QLIBC_VERIF_HASHARR_DATASIZE)
+/* verification hook: lets a bounded-model-checking harness scale the two knobs down */
+#define Q_HASHARR_NAMESIZE (QLIBC_VERIF_HASHARR_NAMESIZE)
+#define Q_HASHARR_DATASIZE (QLIBC_VERIF_HASHARR_DATASIZE)
+#else
 #define Q_HASHARR_NAMESIZE (16)  /*!< knob for maximum key size. */
 #define Q_HASHARR_DATASIZE (32)  /*!< knob for maximum data size in a slot. */
+#endif
 
 /* types */
 typedef struct qhasharr_s qhasharr_t;
